@@ -90,7 +90,8 @@ class PaneBase:
     def __class_getitem__(cls, params: t.Union[type, t.Tuple[type, ...]]):
         if not isinstance(params, tuple):
             params = (params,)
-        return _make_subclass(cls, params)
+        # `Union[int, float] == Union[float, int]`: key the cache on the order of the members as well
+        return _make_subclass(cls, params, tuple(map(_ordered_type_key, params)))
 
     def __repr__(self) -> str:
         inside = ", ".join(
@@ -403,8 +404,16 @@ class PaneOptions:
         return dataclasses.replace(self, **{k: v for (k, v) in changes.items() if v is not None})
 
 
+def _ordered_type_key(ty: t.Any) -> t.Any:
+    """Hashable key of a type expression which, unlike `==` on `typing` objects, distinguishes the order of union members."""
+    args = t.get_args(ty)
+    if not args or t.get_origin(ty) is t.Literal:
+        return ty
+    return (t.get_origin(ty), tuple(map(_ordered_type_key, args)))
+
+
 @functools.lru_cache(maxsize=256)
-def _make_subclass(cls: t.Any, params: t.Tuple[t.Any, ...]) -> type:
+def _make_subclass(cls: t.Any, params: t.Tuple[t.Any, ...], _key: t.Any = None) -> type:
     sup: t.Any = super(PaneBase, cls)
     if not hasattr(sup, '__class_getitem__'):
         raise TypeError(f"type '{cls}' is not subscriptable")
